@@ -92,7 +92,36 @@ func sortOps(ops []sx.Op) {
 	}
 }
 
+// shareAlphabet concentrates on part sharing: one object whose manifest repeats a deduplicated
+// part (two identical appends), copies in both directions, deletes, same-store transitions and
+// overwrites on two keys — the reference-count bookkeeping behind "read back exactly".
+func shareAlphabet(m *sx.Model, stack string) []sx.Op {
+	b := m.Buckets["bka"]
+	if b == nil {
+		return []sx.Op{{Kind: "CreateBucket", B: "bka"}}
+	}
+	var ops []sx.Op
+	for _, k := range []string{"k1", "k2"} {
+		other := map[string]string{"k1": "k2", "k2": "k1"}[k]
+		ops = append(ops,
+			sx.Op{Kind: "Append", B: "bka", K: k, Body: "b"},
+			sx.Op{Kind: "Delete", B: "bka", K: k},
+			sx.Op{Kind: "Copy", SB: "bka", SK: other, B: "bka", K: k},
+			sx.Op{Kind: "Transition", B: "bka", K: k, Opt: map[string]string{"class": "STANDARD_IA"}},
+		)
+	}
+	ops = append(ops, sx.Op{Kind: "Put", B: "bka", K: "k2", Body: "b"})
+	sortOps(ops)
+	return ops
+}
+
+var shareSeeds = [][]sx.Op{
+	{{Kind: "CreateBucket", B: "bka"}, {Kind: "Append", B: "bka", K: "k1", Body: "b"}, {Kind: "Append", B: "bka", K: "k1", Body: "b"}},
+}
+
 func init() {
+	sx.Register(&sx.Spec{Name: "C01share", Buckets: []string{"bka"}, Keys: []string{"k1", "k2"}, Alphabet: shareAlphabet,
+		Assert: map[string]bool{"exist": true, "content": true, "result": true, "upload": true}})
 	sx.Register(&sx.Spec{Name: "C01q", Buckets: c01Buckets, Keys: c01Keys, Alphabet: c01Alphabet([]string{"e", "P9"}, true),
 		Assert: map[string]bool{"exist": true, "content": true, "result": true, "upload": true}})
 	sx.Register(&sx.Spec{Name: "C01t", Buckets: c01Buckets, Keys: c01Keys, Alphabet: c01Alphabet([]string{"e", "a", "A", "B"}, false),
@@ -106,7 +135,7 @@ func TestC01(t *testing.T) {
 	if quick() {
 		s.Spec, s.Depth = sx.SpecByName("C01q"), 3
 		s.Stacks = []string{world.StackSQL, world.StackFS, world.StackDeep}
-		s.DepthFor = map[string]int{world.StackDeep: 2}
+		s.DepthFor = map[string]int{world.StackDeep: 2, world.StackFS: 2}
 	} else {
 		s.Spec, s.Depth = sx.SpecByName("C01t"), 4
 		s.Stacks = world.AllStacks
@@ -116,7 +145,13 @@ func TestC01(t *testing.T) {
 		{{Kind: "CreateBucket", B: "bka"}, {Kind: "Put", B: "bka", K: "k1", Body: "P9"}, {Kind: "Put", B: "bka", K: "k2", Body: "P9"}},
 		{{Kind: "CreateBucket", B: "bka"}, {Kind: "Mpu", B: "bka", K: "k1", Parts: []string{"P5", "a"}}, {Kind: "CreateUpload", B: "bka", K: "k2"}, {Kind: "UploadPart", B: "bka", K: "k2", U: 2, N: 1, Body: "P5"}},
 	}
+	sh := &sx.Search{Run: run, TestRun: "^TestWorker$", Spec: sx.SpecByName("C01share"), Seeds: shareSeeds, Depth: 4, Stacks: []string{world.StackFS}}
+	if !quick() {
+		sh.Depth, sh.Stacks = 6, []string{world.StackFS, world.StackSQL, world.StackNamed}
+	}
+	sh.Explore()
 	s.Explore()
+	s.Merge(sh)
 	s.Coverage()
 	fmt.Printf("C01: states=%d transitions=%d depth=%v outcomes=%d\n", s.States, s.Transitions, s.DepthDone, len(s.Outcomes))
 	finish(t, run)
